@@ -347,6 +347,23 @@ def saveGroupText (S : Suite) (reg : List (Str × Suite)) (g : List ServerId) : 
 /-- `LoadCothority` then `CothorityConfig.Save`: the text written -/
 def savePrivateText (p : Toml.TPriv) : Str := Toml.emitPrivate { p with suite := defaultSuite p.suite }
 
+/-- `NewServerToml(suite, public, address, description, services)` (config.go) from a loaded private
+configuration — the public half of it: the key re-encoded, the `Services` entries' public texts and
+suite names copied, no URL -/
+def newServerToml (S : Suite) (si : ServerId) (p : Toml.TPriv) : Toml.TServer :=
+  { address := p.address, suite := S.name, pub := hexEncode si.pub, description := p.description, url := [],
+    services := some ((p.services.getD []).map fun c => { name := c.name, suite := c.suite, pub := c.pub, priv := [] }) }
+
+/-- `NewGroupToml(server).String()`: the group definition of one server made from its private configuration -/
+def publicGroupText (S : Suite) (si : ServerId) (p : Toml.TPriv) : Str :=
+  let t := newServerToml S si p
+  Toml.emitGroup [{ t with description := if t.description = [] then placeholder else t.description }]
+
+/-- `Roster.Toml(suite)` then `RosterToml.Roster(suite)` (tree.go:1019-1040, network/struct.go:261-283):
+only the public key and the address of every server go through -/
+def throughRosterToml (g : List ServerId) : List ServerId :=
+  g.map fun si => { si with services := [], description := [], url := [], priv := none }
+
 /-! ### line-protocol driver -/
 namespace Drv
 
@@ -562,6 +579,40 @@ def step (s : State) (toks : List String) : State × String :=
            | .unsup => "unsupported"))
       | .err => (s, "err")
       | .unsup => (s, "unsupported")
+    | none => (s, "bad-op")
+  -- `pubtext <bad>`: LoadCothority + GetServerIdentity of the text, then NewServerToml / NewGroupToml /
+  -- String: the group definition (and the single-server snippet) a server publishes, and what the
+  -- group definition reads as
+  | ["pubtext", bad] =>
+    match (if bad = "-" then some [] else (bad.splitOn ",").mapM hx) with
+    | some bad =>
+      match Toml.readPrivateText s.text with
+      | .ok p =>
+        let hc := loadCothority (privCfgOf bad p)
+        match findSuite s.suites hc.suite, getServerIdentity s.suites s.reg hc with
+        | some S, .ok si =>
+          let txt := publicGroupText S si p
+          (s, "text=" ++ Util.hex txt ++ " single=" ++ Util.hex (Toml.emitServer (newServerToml S si p)) ++ " " ++
+            (match readGroupFile s.suites s.reg bad txt with
+             | .ok r => showRes r
+             | .err => "err"
+             | .unsup => "unsupported"))
+        | _, .panic => (s, "panic")
+        | _, _ => (s, "err")
+      | .err => (s, "load-err")
+      | .unsup => (s, "unsupported")
+    | none => (s, "bad-op")
+  -- `rostertoml <bad>`: the roster read from the text goes through Roster.Toml / WriteTomlConfig /
+  -- ReadTomlConfig / RosterToml.Roster
+  | ["rostertoml", bad] =>
+    match (if bad = "-" then some [] else (bad.splitOn ",").mapM hx) with
+    | some bad =>
+      (s, match readGroupFile s.suites s.reg bad s.text with
+          | .ok (.ok g) => showGroup (throughRosterToml g)
+          | .ok .err => "err"
+          | .ok .panic => "panic"
+          | .err => "err"
+          | .unsup => "unsupported")
     | none => (s, "bad-op")
   -- `reload <n>`: the file the last `resave` wrote is read again (with the registry as it is now)
   | ["reload", n] =>
